@@ -93,7 +93,8 @@ class ClassNotDeserializableError(JSONSerializationError):
     clazz: Type
 
     def __post_init__(self):
-        super().__init__(f"Class '{self.clazz.__name__}' cannot be deserialized")
+        name = getattr(self.clazz, "__name__", repr(self.clazz))
+        super().__init__(f"Class '{name}' cannot be deserialized")
 
 
 @dataclass
@@ -204,20 +205,29 @@ class SubclassJSONSerializer:
         if not fully_qualified_class_name:
             raise MissingTypeError()
 
+        if not isinstance(fully_qualified_class_name, str):
+            raise InvalidTypeFormatError(fully_qualified_class_name)
+
         try:
             module_name, class_name = fully_qualified_class_name.rsplit(".", 1)
         except ValueError as exc:
             raise InvalidTypeFormatError(fully_qualified_class_name) from exc
 
+        if not module_name or module_name.startswith("."):
+            raise InvalidTypeFormatError(fully_qualified_class_name)
+
         try:
             module = importlib.import_module(module_name)
-        except ModuleNotFoundError as exc:
+        except (ImportError, ValueError) as exc:
             raise UnknownModuleError(module_name) from exc
 
         try:
             target_cls = getattr(module, class_name)
         except AttributeError as exc:
             raise ClassNotFoundError(class_name, module_name) from exc
+
+        if not isinstance(target_cls, type):
+            raise ClassNotDeserializableError(target_cls)
 
         if issubclass(target_cls, SubclassJSONSerializer):
             return target_cls._from_json(data, **kwargs)
